@@ -39,6 +39,10 @@ func (in *Interp) intercept(fn *ssa.Function, name string, args []Value) (Value,
 			return r, true
 		}
 	}
+	// initialisers of packages that are not under test are skipped
+	if fn.Name() == "init" && fn.Pkg != nil && !in.targets[fn.Pkg] && fn.Signature.Recv() == nil {
+		return nil, true
+	}
 	switch name {
 	case "github.com/pkg/errors.New", "github.com/pkg/errors.Errorf", "errors.New", "fmt.Errorf":
 		return in.mkErr(string(fmtString(args))), true
